@@ -826,6 +826,7 @@ def main():
         'JobControl/ScriptJob/Machine/Clock; systematic runs inject the requester at every decision '
         'of the baseline schedule (atomic, and split between its flag writes); non-trivial = every '
         'run with a stop; distinct by (shape, stop, schedule prefix)')
+    chk.coverage['rule'] += ' Added late, as TESTS in real time with real threads (not proofs): bystander runs, stop_job(name) in six constellations (`named_stops`).'
     chk.assumptions += [
         'thread switches only at source-line boundaries of clock.py, Machine.run/stop/_wait, '
         'script_job.py (and job_control.py in half of the random runs)',
